@@ -468,6 +468,65 @@ def run(ctx, chk):
     _cb = _Ob.PathCache(prog, eff)
     _Nb = _Ob.Nullness(prog, eff, _cb)
     check_balance(chk, "C13.balance", prog, eff, _cb, _Nb, _Ob.Balance(prog, eff, _cb, _Nb), tables.constructors(prog, eff), floor=60)
+    chk.rule("C13.narrowing", "no 64-bit quantity is converted to a narrower integer type except to take one byte of it or below a range test that makes "
+             "the conversion lossless (the size that is allocated is the size that is serialized; shared with C02.narrowing)")
+    import rules as _rnw2
+    _rnw2.check_narrowing(chk, "C13.narrowing", prog, eff=eff)
+    chk.rule("C13.no-orphan", "a block is not dropped by overwriting the only pointer to it: where a library function installs a freshly obtained block in "
+             "the data field of an item it did not just create, the block the field held before has been handed to the installed free or "
+             "realloc on that path, or is known to be NULL (a growth step that falls back to malloc + copy must still release the old table)")
+    import paths as _Pno
+    import ownership as _Ono
+    data_off_ = rules.item_offsets(prog)["data"]
+
+    def orphan_sites(fn_):
+        out_ = []
+        for pa_ in _Pno.Executor(prog, eff, inline=_Ono.static_callees(prog, eff, fn_.name), loop_bound=1).run(fn_.name):
+            fresh_items = {e_.res for e_ in pa_.events if e_.kind == "call" and e_.ckind == "alloc" and e_.callee == "_cbor_malloc"}
+            for k_, e_ in enumerate(pa_.events):
+                if e_.kind != "store":
+                    continue
+                b_, o_ = _Pno.ptr_key(e_.args[0])
+                if o_ != data_off_ or b_ in fresh_items or not isinstance(b_, tuple) or b_[0] not in ("arg", "ld"):
+                    continue
+                v_ = e_.args[1]
+                while isinstance(v_, tuple) and v_[0] == "cast":
+                    v_ = v_[3]
+                if not (isinstance(v_, tuple) and v_[0] == "call" and v_[1] in ("_cbor_malloc", "_cbor_alloc_multiple")):
+                    continue
+                olds = [x_.res for x_ in pa_.events[:k_] if x_.kind == "load" and _Pno.ptr_key(x_.args[0]) == (b_, data_off_)]
+                released = any(x_.kind == "call" and x_.callee in ("_cbor_free", "_cbor_realloc", "_cbor_realloc_multiple") and x_.args and
+                               any(_Pno.ptr_key(a_)[0] in olds or a_ in olds for a_ in x_.args[:1] if isinstance(a_, tuple)) and
+                               not (x_.callee != "_cbor_free" and pa_.st.known_null(x_.res))
+                               for x_ in pa_.events[:k_])
+                isnull = any(pa_.st.known_null(o2_) for o2_ in olds)
+                out_.append((released or isnull, e_, pa_))
+        return out_
+    ctlf = prog.funcs.get("verif_ctl_orphan")
+    if ctlf is not None:
+        chk.ob("C13.no-orphan", "positive control verif_ctl_orphan (a fresh block stored over the old one) is seen",
+               any(not ok_ for ok_, _e, _p in orphan_sites(ctlf)), "controls/ctl_state.c", key="ctl:orphan")
+    n_or = 0
+    for fn_ in prog.lib_funcs():
+        if not any(i_.op == "store" for i_ in fn_.all_insts()) or not eff.summ[fn_.name].get("allocates"):
+            continue
+        if fn_.internal:
+            continue
+        try:
+            sites_ = orphan_sites(fn_)
+        except AnalysisBroken:
+            continue
+        worst_ = {}
+        for ok_, e_, pa_ in sites_:
+            if e_.ins.id not in worst_ or (worst_[e_.ins.id][0] and not ok_):
+                worst_[e_.ins.id] = (ok_, e_, pa_)
+        for ok_, e_, pa_ in worst_.values():
+            n_or += 1
+            chk.ob("C13.no-orphan", "%s: the block replaced at line %d was released, resized or NULL" % (fn_.name, e_.ins.line), ok_, e_.ins.loc(),
+                   fn=fn_.name, key="orphan:%s:%d" % (fn_.name, e_.ins.line),
+                   detail="" if ok_ else "a freshly obtained block is stored over the item's data pointer while the block it pointed to is neither "
+                                         "handed to free / realloc nor known to be NULL", path=pa_.block_lines() if not ok_ else None)
+    chk.extra["data_field_replacements"] = n_or
     chk.exhaustive = True
 
 
